@@ -1294,6 +1294,11 @@ class UTPM(Ring, RawAlgorithmsMixIn):
             tmp = numpy.prod(self.data.shape[2:], dtype=int)
             return UTPM(numpy.sum(self.data.reshape(self.data.shape[:2] + (tmp,)), axis = 2))
         else:
+            if isinstance(axis, tuple):
+                # several axes, as in numpy.sum(x_0, axis=(0,2))
+                nd = self.data.ndim - 2
+                a = tuple(int(k) + 2 + (nd if k < 0 else 0) for k in axis)
+                return UTPM(numpy.sum(self.data, axis = a))
             if axis < 0:
                 a = self.data.ndim + axis
             else:
